@@ -32,6 +32,7 @@ ASSUMPTIONS = ["hash(Sym) constant / == decided by the solver", "memo caches sta
 REQUIRED_REACH = ['C02.count', 'C02.once', 'C02.kind', 'C02.duration', 'C02.causal', 'C02.stable', 'C02.late_add', 'C02.last_entry', 'C02.returned']
 EXHAUSTIVE = {'quick': False, 'thorough': False}
 JOB_OPTS = {'quick': dict(max_paths=3000, max_seconds=300), 'thorough': dict(max_paths=20000, max_seconds=900)}
+TRUNCATION_OK = {'quick': 4, 'thorough': 20}   # sampled tier: this many random jobs may exhaust their path/time budget (listed as truncated in the evidence)
 
 ALPHA = [['W', 0, 'ALL'], ['W', 0, 'ALL'], ['W', 1, 'MW'], ['G', 'Rx180', [0]], ['G', 'CPhase', [0, 1]], ['B', [0, 1]]]
 ALPHA_U = [['W', 0, 'ALL'], ['W', 1, 'MW'], ['G', 'Rx180', [0]], ['B', [0, 1]]]
